@@ -148,6 +148,9 @@ fn run_unit(eng: &dyn Engine, unit: &UnitSpec, progress: Option<&File>, skip: &[
         for (name, n) in &out.probes {
             if *name == "ticks_per_byte_x100" {
                 res.max_ticks_per_byte_x100 = res.max_ticks_per_byte_x100.max(*n);
+            } else if name.starts_with("max:") {
+                let e = probes.entry(name.to_string()).or_insert(0);
+                *e = (*e).max(*n);
             } else {
                 *probes.entry(name.to_string()).or_insert(0) += n;
             }
